@@ -1,5 +1,40 @@
 """Claimed checks -> MANIFEST.json (bin/mkmanifest).  One entry per property that has a validated check."""
 CHECKS = {
+    'C02': dict(
+        category='proof',
+        text='Algorithm pinning is a finite decision problem: __setkey_check (builder and checker builds, 595 cells each), the '
+             'verification policy jwt_verify_complete/__verify_config_post (21 600 cells), jwt_alg_str/jwt_str_alg/jwt_parse_head '
+             '(15 names + 38 near misses, comparison loop interpreted concretely) and the key size/kind gate of jwt_sign and '
+             'jwt_verify_sig (3 360 cells) are evaluated cell by cell by the abstract interpreter and compared with oracle tables '
+             'from RFC 7518 and the documented setkey table; plus a must-pass-through rule that the (alg,key) pair used after the '
+             'callback is the one __setkey_check admitted. Obligations = cells + path sinks; exhaustive over the partition.',
+        design_ref='DESIGN.md section 3 C02, appendix A.1-A.3',
+        note='Trusted: clang front end, engine, API model. The partition of integer inputs is sound because they are only compared '
+             'with constants. Family mismatches among asymmetric key types are left to the providers/crypto libraries (the unedited '
+             'test-suite requires ES256 on an OKP key to fail inside the provider); the generic layer must separate oct from non-oct keys.',
+        technique='decision-table extraction by abstract interpretation over the clang AST, compared with oracle tables',
+    ),
+    'C03': dict(
+        category='proof',
+        text='The unsigned-token half of the verification policy (7 680 cells: empty signature or header alg none) is enumerated and '
+             'compared with the oracle; jwt_encode is path-enumerated per algorithm (a token for alg != none only after jwt_sign()==0); '
+             'the builder rules (alg resolved from the key after the callback, no key with alg none at jwt_head_setup) are shared with C02.',
+        design_ref='DESIGN.md section 3 C03',
+        note='Trusted: clang front end, engine, API model. "none" must be spelled exactly: decided by the concrete evaluation of '
+             'jwt_str_alg/jwt_parse_head over near-miss spellings.',
+        technique='decision tables + path typestate (sign-before-emit) by abstract interpretation of the AST',
+    ),
+    'C09': dict(
+        category='proof',
+        text='jwt_sign and jwt_verify_sig are evaluated over alg 16 x key type 5 x 21 bit counts (all thresholds +-1): a provider '
+             'entry is reached only if the RFC 7518 size rule holds and the key kind matches; refusals leave the error flag set. '
+             'Inside each provider the EdDSA path must restrict the key type to Ed25519/Ed448 before the crypto primitive (a 256-bit '
+             'EC key passes the size rule).',
+        design_ref='DESIGN.md section 3 C09',
+        note='Trusted: clang front end, engine, API model; that OpenSSL\'s BITS parameter is the key size. bits are only compared with '
+             'constants, so the representative set is exhaustive.',
+        technique='decision table by abstract interpretation + path refinement check on the provider key-type query',
+    ),
     'C14': dict(
         category='proof',
         text='Every path of jwt_checker_verify and jwt_builder_generate (both providers, any callback, any allocation '
